@@ -25,6 +25,8 @@ def load(kind):
                 m = json.load(fh)
             m["name"] = fn[:-5]
             m["kind"] = kind
+            if m.get("patch") and not os.path.isabs(m["patch"]):
+                m["patch"] = os.path.join(d, m["patch"])     # a refactored-then-broken tree, as a diff against HEAD
             out.append(m)
     return out
 
